@@ -650,7 +650,7 @@ class Gen:
             self.fp_sort = self.pick([('FP', 5, 11), ('FP', 8, 24), ('FP', 3, 5), ('FP', 11, 53), ('FP', 4, 4)])
         if p.get('datatypes') and self.draw(st.booleans()):
             self.dt_name = self.fresh('D')
-            ctors = [(self.fresh('c'), [])]
+            ctors = [(self.fresh('c'), []) for _ in range(self.pick([1, 1, 2, 3]))]
             for _ in range(self.integer(0, 2)):
                 fields = [(self.fresh('s'), self.pick([INT, BOOL, ('BV', self.pick(p['widths']))]))
                           for _ in range(self.integer(1, 2))]
